@@ -31,6 +31,7 @@ Section CoreProofs.
   Notation vm_run := (vm_run V bop uop bsem usem typeof_sem truthy nullish vundef vnull vbool vint vstr).
   Notation cexpr := (@cexpr bop uop).
   Notation cstmt := (@cstmt bop uop).
+  Notation deeper := Core.deeper.
   Notation cstmts := (@cstmts bop uop).
   Notation ccompile := (@ccompile bop uop).
   Notation mk := (Build_vm V).
@@ -392,20 +393,71 @@ Section CoreProofs.
           rewrite Hn3, R1, Eas. reflexivity.
   Qed.
 
+  (* ---------------- sizes ---------------- *)
+  Lemma cexpr_length : forall e dst next pc c, cexpr e dst next pc = Some c -> length c = esize bop uop e.
+  Proof.
+    induction e as [l|x|o a IHa b IHb|o a IHa|a IHa|x|o a IHa b IHb|c0 IHc a IHa b IHb|x a IHa|o x a IHa|o x a IHa];
+      intros dst next pc c Hc; cbn [Core.cexpr Core.esize] in *.
+    - inversion Hc; reflexivity.
+    - inversion Hc; reflexivity.
+    - destruct (alloc next) as [l|]; [|discriminate].
+      destruct (cexpr a l (S next) pc) as [ca|] eqn:Ca; [|discriminate].
+      destruct (alloc (S next)) as [r|]; [|discriminate].
+      destruct (cexpr b r (S (S next)) (pc + length ca)) as [cb|] eqn:Cb; [|discriminate].
+      inversion Hc; subst c. rewrite !app_length. cbn [length]. rewrite (IHa _ _ _ _ Ca), (IHb _ _ _ _ Cb). lia.
+    - destruct (alloc next) as [l|]; [|discriminate].
+      destruct (cexpr a l (S next) pc) as [ca|] eqn:Ca; [|discriminate].
+      inversion Hc; subst c. rewrite !app_length. cbn [length]. rewrite (IHa _ _ _ _ Ca). lia.
+    - destruct (alloc next) as [l|]; [|discriminate].
+      destruct (cexpr a l (S next) pc) as [ca|] eqn:Ca; [|discriminate].
+      inversion Hc; subst c. rewrite !app_length. cbn [length]. rewrite (IHa _ _ _ _ Ca). lia.
+    - destruct (alloc next) as [l|]; [|discriminate]. inversion Hc; reflexivity.
+    - destruct (cexpr a dst next pc) as [ca|] eqn:Ca; [|discriminate].
+      destruct (cexpr b dst next (pc + length ca + 1)) as [cb|] eqn:Cb; [|discriminate].
+      inversion Hc; subst c. rewrite !app_length. cbn [length]. rewrite (IHa _ _ _ _ Ca), (IHb _ _ _ _ Cb). lia.
+    - destruct (alloc next) as [t|]; [|discriminate].
+      destruct (cexpr c0 t (S next) pc) as [cc|] eqn:Cc; [|discriminate].
+      destruct (cexpr a dst next (pc + length cc + 1)) as [ca|] eqn:Ca; [|discriminate].
+      destruct (cexpr b dst next (pc + length cc + 1 + length ca + 1)) as [cb|] eqn:Cb; [|discriminate].
+      inversion Hc; subst c. rewrite !app_length. cbn [length]. rewrite !app_length. cbn [length].
+      rewrite (IHc _ _ _ _ Cc), (IHa _ _ _ _ Ca), (IHb _ _ _ _ Cb). lia.
+    - destruct (cexpr a dst next pc) as [ca|] eqn:Ca; [|discriminate].
+      inversion Hc; subst c. rewrite !app_length. cbn [length]. rewrite (IHa _ _ _ _ Ca). lia.
+    - destruct (alloc next) as [r|]; [|discriminate].
+      destruct (cexpr a r (S next) (pc + 1)) as [ca|] eqn:Ca; [|discriminate].
+      inversion Hc; subst c. cbn [app length]. rewrite !app_length. cbn [length]. rewrite (IHa _ _ _ _ Ca). lia.
+    - destruct (cexpr a dst next (pc + 2)) as [ca|] eqn:Ca; [|discriminate].
+      inversion Hc; subst c. cbn [app length]. rewrite !app_length. cbn [length]. rewrite (IHa _ _ _ _ Ca). lia.
+  Qed.
+
   (* ---------------- statements ---------------- *)
-  Definition stmt_ok (C : list op) (r : option (sres V)) (pc : nat) (c : list op) (rs : nat -> V) (en : env) : Prop :=
+  Notation loopctx := Core.loopctx.
+  Notation popn := (fun k (en : env) => Nat.iter k (pop V) en).
+
+  Definition stmt_ok (C : list op) (r : option (sres V)) (lc : option loopctx) (pc : nat) (c : list op)
+             (rs : nat -> V) (en : env) : Prop :=
     match r with
     | None => True
     | Some (SNormal _ en') => exists rs', steps C (mk pc rs en) (mk (pc + length c) rs' en')
+    | Some (SBroke _ en') =>
+        match lc with
+        | Some l => exists rs', steps C (mk pc rs en) (mk (lc_break l) rs' (popn (lc_scopes l) en'))
+        | None => False
+        end
+    | Some (SContinued _ en') =>
+        match lc with
+        | Some l => exists rs', steps C (mk pc rs en) (mk (lc_continue l) rs' (popn (lc_scopes l) en'))
+        | None => False
+        end
     | Some (SThrown _ er) => fails C (mk pc rs en) er
     end.
 
   (* the body of a block: the inner loop of compile_block / of exec *)
-  Definition cblock (next : nat) :=
+  Definition cblock (lc : option loopctx) (next : nat) :=
     fix go (l : list stmt) (pc0 : nat) : option (list op) :=
       match l with
       | [] => Some []
-      | s1 :: r => match cstmt s1 next pc0 with None => None | Some c1 =>
+      | s1 :: r => match cstmt s1 (deeper lc) next pc0 with None => None | Some c1 =>
                    match go r (pc0 + length c1) with None => None | Some cr => Some (c1 ++ cr) end end
       end.
   Definition eblock (f : nat) :=
@@ -414,15 +466,61 @@ Section CoreProofs.
       | [] => Some (SNormal V (pop V en0))
       | s1 :: r => match exec f s1 en0 with
                    | Some (SNormal _ en1) => go r en1
+                   | Some (SBroke _ en1) => Some (SBroke V (pop V en1))
+                   | Some (SContinued _ en1) => Some (SContinued V (pop V en1))
                    | other => other
                    end
       end.
+  Definition sblock :=
+    fix go (l : list stmt) : nat := match l with [] => 0 | s1 :: r => ssize bop uop s1 + go r end.
 
-  Lemma cstmt_correct : forall fuel s next pc c C rs en,
-      cstmt s next pc = Some c -> code_at C pc c -> stmt_ok C (exec fuel s en) pc c rs en.
+  Lemma cstmt_length : forall s lc next pc c, cstmt s lc next pc = Some c -> length c = ssize bop uop s.
   Proof.
-    induction fuel as [|f IH]; intros s next pc c C rs en Hc Hat; [exact I|].
-    destruct s as [e|m x e|body|c0 t e|c0 body|].
+    fix IH 1. intros s lc next pc c Hc. destruct s as [e|m x e|body|c0 t e|c0 body| | |]; cbn [Core.cstmt Core.ssize] in *.
+    - destruct (alloc next) as [d|]; [|discriminate]. eapply cexpr_length; eassumption.
+    - destruct (alloc next) as [d|]; [|discriminate].
+      destruct (cexpr e d (S next) pc) as [ce|] eqn:Ce; [|discriminate]. inversion Hc; subst c.
+      rewrite app_length. cbn [length]. rewrite (cexpr_length _ _ _ _ _ Ce). reflexivity.
+    - fold (cblock lc next) in Hc. fold sblock.
+      destruct (cblock lc next body (pc + 1)) as [cb|] eqn:Cb; [|discriminate]. inversion Hc; subst c.
+      cbn [app length]. rewrite app_length. cbn [length].
+      assert (G : forall l pc0 cl, cblock lc next l pc0 = Some cl -> length cl = sblock l).
+      { induction l as [|s1 l IHl]; intros pc0 cl Hl; cbn [cblock sblock] in *.
+        - inversion Hl; reflexivity.
+        - fold (cblock lc next) in Hl.
+          destruct (cstmt s1 (deeper lc) next pc0) as [c1|] eqn:C1; [|discriminate].
+          destruct (cblock lc next l (pc0 + length c1)) as [cr|] eqn:Cr; [|discriminate].
+          inversion Hl; subst cl. rewrite app_length. rewrite (IH _ _ _ _ _ C1), (IHl _ _ Cr). reflexivity. }
+      rewrite (G _ _ _ Cb). lia.
+    - destruct (alloc next) as [tr|]; [|discriminate].
+      destruct (cexpr c0 tr (S next) pc) as [cc|] eqn:Cc; [|discriminate].
+      destruct (cstmt t lc next (pc + length cc + 1)) as [ct|] eqn:Ct; [|discriminate].
+      destruct e as [s2|].
+      + destruct (cstmt s2 lc next (pc + length cc + 1 + length ct + 1)) as [ce|] eqn:Ce; [|discriminate].
+        inversion Hc; subst c. rewrite !app_length. cbn [length]. rewrite !app_length. cbn [length].
+        rewrite (cexpr_length _ _ _ _ _ Cc), (IH _ _ _ _ _ Ct), (IH _ _ _ _ _ Ce). lia.
+      + inversion Hc; subst c. rewrite !app_length. cbn [length].
+        rewrite (cexpr_length _ _ _ _ _ Cc), (IH _ _ _ _ _ Ct). lia.
+    - destruct (alloc next) as [tr|]; [|discriminate].
+      destruct (cexpr c0 tr (S next) pc) as [cc|] eqn:Cc; [|discriminate].
+      match type of Hc with context [cstmt body ?l next ?p] => destruct (cstmt body l next p) as [cb|] eqn:Cb; [|discriminate] end.
+      inversion Hc; subst c. rewrite !app_length. cbn [length]. rewrite !app_length. cbn [length].
+      rewrite (cexpr_length _ _ _ _ _ Cc), (IH _ _ _ _ _ Cb). lia.
+    - destruct lc; [|discriminate]. inversion Hc; reflexivity.
+    - destruct lc; [|discriminate]. inversion Hc; reflexivity.
+    - inversion Hc; reflexivity.
+  Qed.
+
+  Lemma iter_shift (A : Type) (g : A -> A) k x : Nat.iter k g (g x) = Nat.iter (S k) g x.
+  Proof. induction k as [|k IHk]; [reflexivity|]. simpl. rewrite IHk. reflexivity. Qed.
+  Lemma popn_pop k (en : env) : popn k (pop V en) = popn (S k) en.
+  Proof. apply iter_shift. Qed.
+
+  Lemma cstmt_correct : forall fuel s lc next pc c C rs en,
+      cstmt s lc next pc = Some c -> code_at C pc c -> stmt_ok C (exec fuel s en) lc pc c rs en.
+  Proof.
+    induction fuel as [|f IH]; intros s lc next pc c C rs en Hc Hat; [exact I|].
+    destruct s as [e|m x e|body|c0 t e|c0 body| | |].
     - (* expression statement *)
       cbn [Core.cstmt] in Hc. destruct (alloc next) as [d|] eqn:Al; [|discriminate]. apply alloc_some in Al; subst d.
       pose proof (cexpr_correct e next (S next) pc c C Hc Hat (Nat.lt_succ_diag_r _) rs en) as He.
@@ -441,55 +539,75 @@ Section CoreProofs.
       unfold Core.vstep; cbn [pc_of regs_of env_of]. rewrite Hn, R1.
       rewrite app_length. cbn [length]. f_equal. f_equal. lia.
     - (* block *)
-      cbn [Core.cstmt] in Hc. fold (cblock next) in Hc.
-      destruct (cblock next body (pc + 1)) as [cb|] eqn:Cb; [|discriminate]. inversion Hc; subst c; clear Hc.
+      cbn [Core.cstmt] in Hc. fold (cblock lc next) in Hc.
+      destruct (cblock lc next body (pc + 1)) as [cb|] eqn:Cb; [|discriminate]. inversion Hc; subst c; clear Hc.
       pose proof (code_at_head _ _ _ _ Hat) as Hn1.
       pose proof (code_at_tail _ _ _ _ Hat) as Hat_r.
       pose proof (code_at_app_l _ _ _ _ Hat_r) as Hat_b.
       apply (code_at_eq _ _ (pc + 1)) in Hat_b; [|lia].
       pose proof (code_at_head _ _ _ _ (code_at_app_r _ _ _ _ Hat_r)) as Hn2.
       cbn [Core.exec]. fold (eblock f).
+      (* inside the block: normal completion reaches the end of the body with the scope still open;
+         break / continue have already left all scopes up to the loop *)
       assert (Hblock : forall l pc0 cl rs0 en0,
-                 cblock next l pc0 = Some cl -> code_at C pc0 cl ->
+                 cblock lc next l pc0 = Some cl -> code_at C pc0 cl ->
                  match eblock f l en0 with
                  | None => True
                  | Some (SNormal _ en') =>
                      exists rs' en1, steps C (mk pc0 rs0 en0) (mk (pc0 + length cl) rs' en1) /\ en' = pop V en1
+                 | Some (SBroke _ en') =>
+                     match lc with
+                     | Some l0 => exists rs', steps C (mk pc0 rs0 en0) (mk (lc_break l0) rs' (popn (lc_scopes l0) en'))
+                     | None => False
+                     end
+                 | Some (SContinued _ en') =>
+                     match lc with
+                     | Some l0 => exists rs', steps C (mk pc0 rs0 en0) (mk (lc_continue l0) rs' (popn (lc_scopes l0) en'))
+                     | None => False
+                     end
                  | Some (SThrown _ er) => fails C (mk pc0 rs0 en0) er
                  end).
       { induction l as [|s1 l IHl]; intros pc0 cl rs0 en0 Hcl Hatl.
         - cbn in Hcl. inversion Hcl; subst cl. cbn [eblock].
           exists rs0, en0. split; [|reflexivity]. eapply steps_eq; [apply steps_refl|]. f_equal. cbn; lia.
-        - cbn [cblock] in Hcl. fold (cblock next) in Hcl.
-          destruct (cstmt s1 next pc0) as [c1|] eqn:C1; [|discriminate].
-          destruct (cblock next l (pc0 + length c1)) as [cr|] eqn:Cr; [|discriminate].
+        - cbn [cblock] in Hcl. fold (cblock lc next) in Hcl.
+          destruct (cstmt s1 (deeper lc) next pc0) as [c1|] eqn:C1; [|discriminate].
+          destruct (cblock lc next l (pc0 + length c1)) as [cr|] eqn:Cr; [|discriminate].
           inversion Hcl; subst cl; clear Hcl.
-          pose proof (IH s1 next pc0 c1 C rs0 en0 C1 (code_at_app_l _ _ _ _ Hatl)) as H1.
+          pose proof (IH s1 (deeper lc) next pc0 c1 C rs0 en0 C1 (code_at_app_l _ _ _ _ Hatl)) as H1.
           cbn [eblock]. fold (eblock f).
-          destruct (exec f s1 en0) as [[en1|er]|] eqn:E1; cbn [stmt_ok] in H1; [|exact H1|exact I].
-          destruct H1 as [rs1 S1].
-          specialize (IHl (pc0 + length c1) cr rs1 en1 Cr (code_at_app_r _ _ _ _ Hatl)).
-          destruct (eblock f l en1) as [[en2|er]|] eqn:E2; [| |exact I].
-          + destruct IHl as [rs2 [en3 [S2 Ep]]]. exists rs2, en3. split; [|exact Ep].
-            eapply steps_trans; [exact S1|]. eapply steps_eq; [exact S2|]. f_equal. rewrite app_length. lia.
-          + eapply fails_after; [exact S1|exact IHl]. }
+          destruct (exec f s1 en0) as [[en1|en1|en1|er]|] eqn:E1; cbn [stmt_ok] in H1; [| | |exact H1|exact I].
+          + destruct H1 as [rs1 S1].
+            specialize (IHl (pc0 + length c1) cr rs1 en1 Cr (code_at_app_r _ _ _ _ Hatl)).
+            destruct (eblock f l en1) as [[en2|en2|en2|er]|] eqn:E2; [| | | |exact I].
+            * destruct IHl as [rs2 [en3 [S2 Ep]]]. exists rs2, en3. split; [|exact Ep].
+              eapply steps_trans; [exact S1|]. eapply steps_eq; [exact S2|]. f_equal. rewrite app_length. lia.
+            * destruct lc as [l0|]; [|exact IHl]. destruct IHl as [rs2 S2]. exists rs2. eapply steps_trans; eassumption.
+            * destruct lc as [l0|]; [|exact IHl]. destruct IHl as [rs2 S2]. exists rs2. eapply steps_trans; eassumption.
+            * eapply fails_after; [exact S1|exact IHl].
+          + destruct lc as [l0|]; cbn [deeper lc_break lc_scopes] in H1; [|exact H1].
+            destruct H1 as [rs1 S1]. exists rs1. rewrite popn_pop. exact S1.
+          + destruct lc as [l0|]; cbn [deeper lc_continue lc_scopes] in H1; [|exact H1].
+            destruct H1 as [rs1 S1]. exists rs1. rewrite popn_pop. exact S1. }
       assert (S0 : steps C (mk pc rs en) (mk (pc + 1) rs (push V en))).
       { apply steps_one. unfold Core.vstep; cbn [pc_of regs_of env_of]. rewrite Hn1. f_equal. f_equal. lia. }
       specialize (Hblock body (pc + 1) cb rs (push V en) Cb Hat_b).
-      destruct (eblock f body (push V en)) as [[en2|er]|] eqn:E2; cbn [stmt_ok]; [| |exact I].
+      destruct (eblock f body (push V en)) as [[en2|en2|en2|er]|] eqn:E2; cbn [stmt_ok]; [| | | |exact I].
       + destruct Hblock as [rs2 [en3 [S2 Ep]]]. subst en2. exists rs2.
         eapply steps_trans; [exact S0|]. eapply steps_trans; [exact S2|]. apply steps_one.
         unfold Core.vstep; cbn [pc_of regs_of env_of].
         replace (pc + 1 + length cb) with (S pc + length cb) by lia. rewrite Hn2.
         f_equal. f_equal. cbn [app length]. rewrite app_length. cbn [length]. lia.
+      + destruct lc as [l0|]; [|exact Hblock]. destruct Hblock as [rs2 S2]. exists rs2. eapply steps_trans; eassumption.
+      + destruct lc as [l0|]; [|exact Hblock]. destruct Hblock as [rs2 S2]. exists rs2. eapply steps_trans; eassumption.
       + eapply fails_after; [exact S0|exact Hblock].
     - (* if *)
       cbn [Core.cstmt] in Hc. destruct (alloc next) as [tr|] eqn:Al; [|discriminate]. apply alloc_some in Al; subst tr.
       destruct (cexpr c0 next (S next) pc) as [cc|] eqn:Cc; [|discriminate].
-      destruct (cstmt t next (pc + length cc + 1)) as [ct|] eqn:Ct; [|discriminate].
+      destruct (cstmt t lc next (pc + length cc + 1)) as [ct|] eqn:Ct; [|discriminate].
       cbn [Core.exec].
       destruct e as [s2|].
-      + destruct (cstmt s2 next (pc + length cc + 1 + length ct + 1)) as [ce|] eqn:Ce; [|discriminate].
+      + destruct (cstmt s2 lc next (pc + length cc + 1 + length ct + 1)) as [ce|] eqn:Ce; [|discriminate].
         inversion Hc; subst c; clear Hc.
         pose proof (code_at_app_l _ _ _ _ Hat) as Hat_c.
         pose proof (code_at_app_r _ _ _ _ Hat) as Hat_r1.
@@ -508,22 +626,26 @@ Section CoreProofs.
         * assert (S0 : steps C (mk pc rs en) (mk (pc + length cc + 1) rs1 en1)).
           { eapply steps_trans; [exact S1|]. apply steps_one.
             unfold Core.vstep; cbn [pc_of regs_of env_of]. rewrite Hn1, R1, Et. f_equal. f_equal. lia. }
-          pose proof (IH t next (pc + length cc + 1) ct C rs1 en1 Ct Hat_t) as Ht.
-          destruct (exec f t en1) as [[en2|er]|]; cbn [stmt_ok] in *; [| |exact I].
+          pose proof (IH t lc next (pc + length cc + 1) ct C rs1 en1 Ct Hat_t) as Ht.
+          destruct (exec f t en1) as [[en2|en2|en2|er]|]; cbn [stmt_ok] in *; [| | | |exact I].
           -- destruct Ht as [rs2 S2]. exists rs2.
              eapply steps_trans; [exact S0|]. eapply steps_trans; [exact S2|]. apply steps_one.
              unfold Core.vstep; cbn [pc_of regs_of env_of].
              replace (pc + length cc + 1 + length ct) with (S (pc + length cc) + length ct) by lia.
              rewrite Hn2. f_equal. f_equal. rewrite !app_length. cbn [length]. rewrite !app_length. cbn [length]. lia.
+          -- destruct lc as [l0|]; [|exact Ht]. destruct Ht as [rs2 S2]. exists rs2. eapply steps_trans; eassumption.
+          -- destruct lc as [l0|]; [|exact Ht]. destruct Ht as [rs2 S2]. exists rs2. eapply steps_trans; eassumption.
           -- eapply fails_after; [exact S0|exact Ht].
         * assert (S0 : steps C (mk pc rs en) (mk (pc + length cc + 1 + length ct + 1) rs1 en1)).
           { eapply steps_trans; [exact S1|]. apply steps_one.
             unfold Core.vstep; cbn [pc_of regs_of env_of]. rewrite Hn1, R1, Et. reflexivity. }
-          pose proof (IH s2 next (pc + length cc + 1 + length ct + 1) ce C rs1 en1 Ce Hat_e) as He.
-          destruct (exec f s2 en1) as [[en2|er]|]; cbn [stmt_ok] in *; [| |exact I].
+          pose proof (IH s2 lc next (pc + length cc + 1 + length ct + 1) ce C rs1 en1 Ce Hat_e) as He.
+          destruct (exec f s2 en1) as [[en2|en2|en2|er]|]; cbn [stmt_ok] in *; [| | | |exact I].
           -- destruct He as [rs2 S2]. exists rs2.
              eapply steps_trans; [exact S0|]. eapply steps_eq; [exact S2|].
              f_equal. rewrite !app_length. cbn [length]. rewrite !app_length. cbn [length]. lia.
+          -- destruct lc as [l0|]; [|exact He]. destruct He as [rs2 S2]. exists rs2. eapply steps_trans; eassumption.
+          -- destruct lc as [l0|]; [|exact He]. destruct He as [rs2 S2]. exists rs2. eapply steps_trans; eassumption.
           -- eapply fails_after; [exact S0|exact He].
       + inversion Hc; subst c; clear Hc.
         pose proof (code_at_app_l _ _ _ _ Hat) as Hat_c.
@@ -538,21 +660,27 @@ Section CoreProofs.
         * assert (S0 : steps C (mk pc rs en) (mk (pc + length cc + 1) rs1 en1)).
           { eapply steps_trans; [exact S1|]. apply steps_one.
             unfold Core.vstep; cbn [pc_of regs_of env_of]. rewrite Hn1, R1, Et. f_equal. f_equal. lia. }
-          pose proof (IH t next (pc + length cc + 1) ct C rs1 en1 Ct Hat_t) as Ht.
-          destruct (exec f t en1) as [[en2|er]|]; cbn [stmt_ok] in *; [| |exact I].
+          pose proof (IH t lc next (pc + length cc + 1) ct C rs1 en1 Ct Hat_t) as Ht.
+          destruct (exec f t en1) as [[en2|en2|en2|er]|]; cbn [stmt_ok] in *; [| | | |exact I].
           -- destruct Ht as [rs2 S2]. exists rs2.
              eapply steps_trans; [exact S0|]. eapply steps_eq; [exact S2|].
              f_equal. rewrite !app_length. cbn [length]. lia.
+          -- destruct lc as [l0|]; [|exact Ht]. destruct Ht as [rs2 S2]. exists rs2. eapply steps_trans; eassumption.
+          -- destruct lc as [l0|]; [|exact Ht]. destruct Ht as [rs2 S2]. exists rs2. eapply steps_trans; eassumption.
           -- eapply fails_after; [exact S0|exact Ht].
         * cbn [stmt_ok]. exists rs1. eapply steps_trans; [exact S1|]. apply steps_one.
           unfold Core.vstep; cbn [pc_of regs_of env_of]. rewrite Hn1, R1, Et.
           f_equal. f_equal. rewrite !app_length. cbn [length]. lia.
     - (* while *)
+      pose proof Hc as Hwhole.
       cbn [Core.cstmt] in Hc. destruct (alloc next) as [tr|] eqn:Al; [|discriminate].
-      pose proof Al as Al'. apply alloc_some in Al; subst tr.
+      apply alloc_some in Al; subst tr.
       destruct (cexpr c0 next (S next) pc) as [cc|] eqn:Cc; [|discriminate].
-      destruct (cstmt body next (pc + length cc + 1)) as [cb|] eqn:Cb; [|discriminate].
+      set (finish := pc + length cc + 1 + ssize bop uop body + 1) in *.
+      set (lcb := Some {| lc_continue := pc; lc_break := finish; lc_scopes := 0 |}) in *.
+      destruct (cstmt body lcb next (pc + length cc + 1)) as [cb|] eqn:Cb; [|discriminate].
       inversion Hc; subst c; clear Hc.
+      pose proof (cstmt_length _ _ _ _ _ Cb) as Lb.
       pose proof (code_at_app_l _ _ _ _ Hat) as Hat_c.
       pose proof (code_at_app_r _ _ _ _ Hat) as Hat_r1.
       pose proof (code_at_head _ _ _ _ Hat_r1) as Hn1.
@@ -561,6 +689,8 @@ Section CoreProofs.
       apply (code_at_eq _ _ (pc + length cc + 1)) in Hat_b; [|lia].
       pose proof (code_at_head _ _ _ _ (code_at_app_r _ _ _ _ Hat_r2)) as Hn2.
       pose proof (cexpr_correct c0 next (S next) pc cc C Cc Hat_c (Nat.lt_succ_diag_r _) rs en) as Hcond.
+      assert (Hlen : pc + length (cc ++ [OJumpIfFalse bop uop next finish] ++ cb ++ [OJump bop uop pc]) = finish).
+      { rewrite !app_length. cbn [length]. rewrite ?app_length. cbn [length]. unfold finish. lia. }
       cbn [Core.exec].
       destruct (eval c0 en) as [[vc|er] en1]; cbn [stmt_ok]; [|exact Hcond].
       destruct Hcond as [rs1 [S1 [R1 _]]].
@@ -568,46 +698,62 @@ Section CoreProofs.
       + assert (S0 : steps C (mk pc rs en) (mk (pc + length cc + 1) rs1 en1)).
         { eapply steps_trans; [exact S1|]. apply steps_one.
           unfold Core.vstep; cbn [pc_of regs_of env_of]. rewrite Hn1, R1, Et. f_equal. f_equal. lia. }
-        pose proof (IH body next (pc + length cc + 1) cb C rs1 en1 Cb Hat_b) as Hb.
-        destruct (exec f body en1) as [[en2|er]|]; cbn [stmt_ok] in *; [| |exact I].
-        * destruct Hb as [rs2 S2].
-          assert (S3 : steps C (mk pc rs en) (mk pc rs2 en2)).
-          { eapply steps_trans; [exact S0|]. eapply steps_trans; [exact S2|]. apply steps_one.
-            unfold Core.vstep; cbn [pc_of regs_of env_of].
-            replace (pc + length cc + 1 + length cb) with (S (pc + length cc) + length cb) by lia.
-            rewrite Hn2. reflexivity. }
-          assert (Hw : cstmt (SWhile bop uop c0 body) next pc
-                       = Some (cc ++ [OJumpIfFalse bop uop next (pc + length cc + 1 + length cb + 1)] ++ cb ++ [OJump bop uop pc])).
-          { cbn [Core.cstmt]. rewrite Al', Cc, Cb. reflexivity. }
-          pose proof (IH (SWhile bop uop c0 body) next pc _ C rs2 en2 Hw Hat) as Hl.
-          destruct (exec f (SWhile bop uop c0 body) en2) as [[en3|er]|]; cbn [stmt_ok] in *; [| |exact I].
-          -- destruct Hl as [rs3 S4]. exists rs3. eapply steps_trans; [exact S3|exact S4].
-          -- eapply fails_after; [exact S3|exact Hl].
-        * eapply fails_after; [exact S0|exact Hb].
+        pose proof (IH body lcb next (pc + length cc + 1) cb C rs1 en1 Cb Hat_b) as Hb.
+        (* the loop again, from its start *)
+        assert (Hagain : forall rs2 en2, steps C (mk pc rs en) (mk pc rs2 en2) ->
+                  stmt_ok C (exec f (SWhile bop uop c0 body) en2) lc pc
+                          (cc ++ [OJumpIfFalse bop uop next finish] ++ cb ++ [OJump bop uop pc]) rs en).
+        { intros rs2 en2 S3.
+          pose proof (IH (SWhile bop uop c0 body) lc next pc _ C rs2 en2 Hwhole Hat) as Hl.
+          destruct (exec f (SWhile bop uop c0 body) en2) as [[en3|en3|en3|er]|]; cbn [stmt_ok] in *; [| | | |exact I].
+          - destruct Hl as [rs3 S4]. exists rs3. eapply steps_trans; eassumption.
+          - destruct lc as [l0|]; [|exact Hl]. destruct Hl as [rs3 S4]. exists rs3. eapply steps_trans; eassumption.
+          - destruct lc as [l0|]; [|exact Hl]. destruct Hl as [rs3 S4]. exists rs3. eapply steps_trans; eassumption.
+          - eapply fails_after; eassumption. }
+        destruct (exec f body en1) as [[en2|en2|en2|er]|]; cbn [stmt_ok] in Hb; [| | | |exact I].
+        * destruct Hb as [rs2 S2]. apply (Hagain rs2 en2).
+          eapply steps_trans; [exact S0|]. eapply steps_trans; [exact S2|]. apply steps_one.
+          unfold Core.vstep; cbn [pc_of regs_of env_of].
+          replace (pc + length cc + 1 + length cb) with (S (pc + length cc) + length cb) by lia.
+          rewrite Hn2. reflexivity.
+        * (* break: out of the loop *)
+          unfold lcb in Hb. cbn [lc_break lc_scopes Nat.iter] in Hb. destruct Hb as [rs2 S2].
+          cbn [stmt_ok]. exists rs2. eapply steps_trans; [exact S0|]. eapply steps_eq; [exact S2|]. f_equal. symmetry. exact Hlen.
+        * (* continue: back to the test *)
+          unfold lcb in Hb. cbn [lc_continue lc_scopes Nat.iter] in Hb. destruct Hb as [rs2 S2].
+          apply (Hagain rs2 en2). eapply steps_trans; [exact S0|exact S2].
+        * cbn [stmt_ok]. eapply fails_after; [exact S0|exact Hb].
       + cbn [stmt_ok]. exists rs1. eapply steps_trans; [exact S1|]. apply steps_one.
-        unfold Core.vstep; cbn [pc_of regs_of env_of]. rewrite Hn1, R1, Et.
-        f_equal. f_equal. rewrite !app_length. cbn [length]. rewrite !app_length. cbn [length]. lia.
+        unfold Core.vstep; cbn [pc_of regs_of env_of]. rewrite Hn1, R1, Et. f_equal. f_equal. symmetry. exact Hlen.
+    - (* break *)
+      cbn [Core.cstmt] in Hc. destruct lc as [l0|]; [|discriminate]. inversion Hc; subst c; clear Hc.
+      pose proof (code_at_head _ _ _ _ Hat) as Hn. cbn [Core.exec stmt_ok]. exists rs.
+      apply steps_one. unfold Core.vstep; cbn [pc_of regs_of env_of]. rewrite Hn. reflexivity.
+    - (* continue *)
+      cbn [Core.cstmt] in Hc. destruct lc as [l0|]; [|discriminate]. inversion Hc; subst c; clear Hc.
+      pose proof (code_at_head _ _ _ _ Hat) as Hn. cbn [Core.exec stmt_ok]. exists rs.
+      apply steps_one. unfold Core.vstep; cbn [pc_of regs_of env_of]. rewrite Hn. reflexivity.
     - (* empty *)
       cbn [Core.cstmt] in Hc. inversion Hc; subst c. cbn [Core.exec stmt_ok].
       exists rs. eapply steps_eq; [apply steps_refl|]. f_equal. cbn; lia.
   Qed.
 
   Lemma cstmts_correct : forall fuel l next pc c C rs en,
-      cstmts l next pc = Some c -> code_at C pc c -> stmt_ok C (exec_list fuel l en) pc c rs en.
+      cstmts l next pc = Some c -> code_at C pc c -> stmt_ok C (exec_list fuel l en) None pc c rs en.
   Proof.
     intros fuel l; induction l as [|s1 l IHl]; intros next pc c C rs en Hc Hat.
     - cbn in Hc. inversion Hc; subst c. cbn [Core.exec_list stmt_ok].
       exists rs. eapply steps_eq; [apply steps_refl|]. f_equal. cbn; lia.
     - cbn [Core.cstmts] in Hc.
-      destruct (cstmt s1 next pc) as [c1|] eqn:C1; [|discriminate].
+      destruct (cstmt s1 None next pc) as [c1|] eqn:C1; [|discriminate].
       destruct (cstmts l next (pc + length c1)) as [cr|] eqn:Cr; [|discriminate].
       inversion Hc; subst c; clear Hc.
-      pose proof (cstmt_correct fuel s1 next pc c1 C rs en C1 (code_at_app_l _ _ _ _ Hat)) as H1.
+      pose proof (cstmt_correct fuel s1 None next pc c1 C rs en C1 (code_at_app_l _ _ _ _ Hat)) as H1.
       cbn [Core.exec_list].
-      destruct (exec fuel s1 en) as [[en1|er]|]; cbn [stmt_ok] in *; [|exact H1|exact I].
+      destruct (exec fuel s1 en) as [[en1|en1|en1|er]|]; cbn [stmt_ok] in *; [|exact H1|exact H1|exact H1|exact I].
       destruct H1 as [rs1 S1].
       specialize (IHl next (pc + length c1) cr C rs1 en1 Cr (code_at_app_r _ _ _ _ Hat)).
-      destruct (exec_list fuel l en1) as [[en2|er]|]; cbn [stmt_ok] in *; [| |exact I].
+      destruct (exec_list fuel l en1) as [[en2|en2|en2|er]|]; cbn [stmt_ok] in *; [|exact IHl|exact IHl| |exact I].
       + destruct IHl as [rs2 S2]. exists rs2. eapply steps_trans; [exact S1|].
         eapply steps_eq; [exact S2|]. f_equal. rewrite app_length. lia.
       + eapply fails_after; [exact S1|exact IHl].
@@ -641,7 +787,7 @@ Section CoreProofs.
     { apply steps_one. unfold Core.vstep, vm_init; cbn [pc_of regs_of env_of]. rewrite Hn0. reflexivity. }
     unfold Core.run_source in Hr.
     pose proof (cstmts_correct fuel body 0 1 cb C rs0 [[]] Cb Hat_b) as Hb.
-    destruct (exec_list fuel body [[]]) as [[en1|er]|]; cbn [stmt_ok] in Hb; [| |discriminate].
+    destruct (exec_list fuel body [[]]) as [[en1|en1|en1|er]|]; cbn [stmt_ok] in Hb; [|contradiction|contradiction| |discriminate].
     - destruct Hb as [rs1 S1].
       pose proof (cexpr_correct final 0 1 (1 + length cb) cf C Cf Hat_f Nat.lt_0_1 rs1 en1) as Hf.
       destruct (eval final en1) as [[v|er] en2]; inversion Hr; subst out; clear Hr.
